@@ -128,6 +128,17 @@ func vSymRequest(maxVals int) (*http.Request, map[string][]string) {
 		}
 		return r, hv
 	}
+	if vParam("verFocus", 0) == 1 {
+		// everything is a fixed valid upgrade request except the version: 13 and other spellings of the number 13 (only
+		// the text "13" is the version), other versions, lists
+		r := &http.Request{Method: "GET", ProtoMajor: 1, ProtoMinor: 1, Header: http.Header{}, Host: "example.com"}
+		vers := []string{"13", "013", "+13", "0013", "13.0", "1_3", "0xd", "8", "14", "13, 8", "8, 13", ""}
+		hv := map[string][]string{"Connection": {"Upgrade"}, "Upgrade": {"websocket"}, "Sec-Websocket-Version": {vers[vChoose("ver", len(vers))]}, "Sec-Websocket-Key": {vConcreteKeys[0]}}
+		for k, v := range hv {
+			vSetHeader(r.Header, k, v)
+		}
+		return r, hv
+	}
 	if vParam("keyFocus", 0) == 1 {
 		vRefAsciiTrim = true
 		// everything but the key is a fixed valid upgrade request; the key is one of the concrete boundary keys, given
